@@ -169,6 +169,10 @@ def frames_alphabet():
     F["abort"] = rc.encode_tcp(ABORT, b"", [], b"bye")
     F["empty"] = rc.encode_tcp(0, b"", [], b"")
     F["sig-unknown"] = rc.encode_tcp(230, b"", [], b"")
+    # an Empty message is ignored whatever it carries (RFC 8323 section 3.4): a token, an option, a payload
+    F["empty-token"] = rc.encode_tcp(0, b"\x61\x62", [], b"")
+    F["empty-option"] = rc.encode_tcp(0, b"", [(11, b"x")], b"")
+    F["empty-payload"] = rc.encode_tcp(0, b"\x63", [], b"padding" * 3)
     F["big"] = rc.encode_tcp(1, b"\x71", [(11, b"r")], b"B" * (MAXSIZE))
     F["tkl9"] = bytes([0x09, 0x01]) + b"T" * 9
     F["bad-nibble"] = bytes([0x11, 0x01, 0x72, 0xF1])[:3] + b""    # placeholder, replaced below
